@@ -1,9 +1,18 @@
 (* C06 - allocator protocol: each block returned once with its own size, none left.
    Over the vector model the blocks a container owns are read off its words ([owned]: one block of <capacity word> elements
    while begin() points to the heap), and an event list is interpreted on the multiset of outstanding blocks ([apply_evs];
-   None = a block returned that is not outstanding with that size).  PARTIAL: proved per storage-base function; the
-   composition over whole operations is carried by the correspondence (the model's event lists equal the implementation's)
-   and by the ledger allocator of the driver.
+   None = a block returned that is not outstanding with that size).
+   History level (Ledger.v):
+   - [C06_every_operation_ledger]: for EVERY operation of the model (38 operations, any flavour, size type, element category,
+     allocator kind) on a pool satisfying the representation invariant, the allocator events of the operation turn the
+     multiset of blocks owned by the containers of the pool before it into the multiset owned after it - no block is
+     returned that is not outstanding with exactly that size, none is dropped - also when the operation throws;
+   - [C06_every_history_ledger]: hence after any history from the empty pool the events form a valid allocator conversation,
+     the outstanding blocks are exactly those owned by the live containers, and nothing is outstanding once every container
+     is gone.  (A buffer adopted from an amc::vector enters the ledger as an allocation made outside the pool.)
+   What remains PARTIAL: the theorem is about the model's event lists; that they are the implementation's is the lock-step
+   correspondence (every step's event list compared) and the ledger allocator of the drivers.
+   Per storage-base function:
    - [C06_reallocate_dispatch]: the allocator's reallocate is used only for trivially relocatable element types with an
      allocator offering it, with the true old capacity and live count; otherwise allocate + deallocate(old capacity);
    - [C06_grow_ledger]: growth turns the owned blocks into the owned blocks of the result (old block returned with the
@@ -11,8 +20,8 @@
    - [C06_free_ledger]: destruction returns the block with its capacity word;
    - [C06_move_assign_ledger]: move assignment from a heap-backed vector returns the target's old block and transfers the
      source's block together with the capacity word - nothing is allocated, nothing is left with the source. *)
-From Coq Require Import ZArith List Bool.
-From Amc Require Import GenPrelude Words VecModel VecProofs.
+From Coq Require Import ZArith List Bool Permutation.
+From Amc Require Import GenPrelude Words VecModel VecProofs Ledger.
 Import ListNotations.
 Local Open Scope Z_scope.
 
@@ -38,8 +47,49 @@ Theorem C06_move_assign_ledger :
     apply_evs (owned c t ++ owned c o) ev = Some (owned c t' ++ owned c o') /\ owned c t' = owned c o /\ owned c o' = [].
 Proof. exact move_assign_ledger. Qed.
 
+Theorem C06_every_operation_ledger :
+  forall c, cfg_ok c -> forall p o, PInv c p -> op_ok p o ->
+    exists outstanding, apply_evs (pool_own c p) (ext_events c o ++ evs_of (step c p o)) = Some outstanding /\
+                        Permutation outstanding (pool_own c (pool_of (step c p o))).
+Proof. exact step_led. Qed.
+
+Theorem C06_every_history_ledger :
+  forall c, cfg_ok c -> forall ops, ops_ok c init_pool ops ->
+    exists outstanding, apply_evs [] (run_evs c init_pool ops) = Some outstanding /\
+      Permutation outstanding (pool_own c (run c init_pool ops)) /\
+      ((forall k, get (run c init_pool ops) k = None) -> outstanding = []).
+Proof. exact ledger_every_history. Qed.
+
+(* non-vacuity: SmallVector<NTR,2> grows to the heap, is move-assigned to a second one that owned a buffer, both destroyed *)
+Example C06_example_history :
+  let c := {| fl := FSV; cN := 2; cM := 255; csigned := false; ccat := NTR; calloc := ALed |} in
+  let ops := [CtorRange 0 RFwd [1;2;3]; CtorRange 1 RFwd [4;5;6;7]; MoveAssign 1 0; PushBack 1 (AExt 9); Shrink 1; Dtor 0; Dtor 1] in
+  run_evs c init_pool ops = [EAlloc 3; EAlloc 4; EDealloc 4; EAlloc 5; EDealloc 3; EAlloc 4; EDealloc 5; EDealloc 4] /\
+  apply_evs [] (run_evs c init_pool ops) = Some [] /\ run c init_pool ops = [None; None; None].
+Proof. vm_compute. repeat split. Qed.
+
 Example C06_example :
   let c := {| fl := FVec; cN := 0; cM := 4294967295; csigned := false; ccat := NTR; calloc := AAmc |} in
   let '(p, r, ev) := step c (run c init_pool [CtorRange 0 RFwd [1;2;3]]) (PushBack 0 (AExt 4)) in
   (ev, apply_evs [3] ev) = ([EAlloc 5; EDealloc 3], Some [5]).
 Proof. vm_compute. reflexivity. Qed.
+
+(* The allocator calls of the model are the code's: [b_grow] and [b_shrink] - new words and the allocate / deallocate /
+   Reallocate calls with their arguments, in order - are proved equal (Gen/BaseTV_<S>.v) to the definitions regenerated on
+   every run by translator/base2coq.py from clang's AST of grow, shrink_impl, shrink, resetToSmall, freeStorage of the bases. *)
+From Amc.Gen Require BaseTV_u8 BaseTV_u32.
+Theorem C06_grow_is_the_regenerated_one_u8 :
+  forall c, cM c = 255 -> forall st minSize exact, fl c = FSV -> Words.WInv 255 (cN c) st -> 0 <= minSize < 2 ^ 63 -> 255 < 2 ^ 62 ->
+    mk_wrap c = wrap_u8 -> BaseTV_u8.one c (Base_u8.sv_grow st minSize exact) = b_grow c st minSize exact.
+Proof. exact BaseTV_u8.sv_grow_tv. Qed.
+Theorem C06_shrink_is_the_regenerated_one_u8 :
+  forall c, cM c = 255 -> 0 < cN c < 255 -> forall st, fl c = FSV -> Words.WInv 255 (cN c) st ->
+    BaseTV_u8.one c (Base_u8.sv_shrink_impl st (cN c)) = Some (b_shrink c st).
+Proof. exact BaseTV_u8.sv_shrink_impl_tv. Qed.
+Theorem C06_vector_grow_is_the_regenerated_one_u32 :
+  forall c, cM c = 4294967295 -> forall st minSize exact, fl c = FVec -> BaseTV_u32.InRange st -> 0 <= minSize < 2 ^ 63 -> 4294967295 < 2 ^ 62 ->
+    mk_wrap c = wrap_u32 -> BaseTV_u32.one c (Base_u32.std_grow st minSize exact) = b_grow c st minSize exact.
+Proof. exact BaseTV_u32.std_grow_tv. Qed.
+Theorem C06_vector_shrink_is_the_regenerated_one_u32 :
+  forall c st, fl c = FVec -> BaseTV_u32.InRange st -> BaseTV_u32.one c (Base_u32.std_shrink_impl st 0) = Some (b_shrink c st).
+Proof. exact BaseTV_u32.std_shrink_impl_tv. Qed.
